@@ -471,6 +471,12 @@ fn gen_raw(r: &mut Rng) -> (Vec<u8>, String) {
 /// Trees whose text rendering exercises the binary-misread hazards: long numbers,
 /// strings whose fifth byte falls in each entry-type class, arrays.
 fn gen_text_doc(r: &mut Rng) -> MVal {
+    if r.chance(1, 25) {
+        // one string literal with 255 / 256 / 257 / 300 escapes (a log message full of line breaks or quotes)
+        let n = *r.pick(&[255usize, 256, 257, 300]);
+        let s = MVal::Str(r.pick(&["\n", "\"", "\\", "\t", "é", "\u{10ffff}"]).repeat(n));
+        return if r.chance(1, 2) { s } else { MVal::Arr(vec![MVal::U64(1), s]) };
+    }
     match r.below(10) {
         0..=1 => MVal::U64(*r.pick(&[12345678u64, 1234567890, 99999999, 10000000, u64::MAX, 4294967296, 123456789012])),
         2 => MVal::I64(*r.pick(&[-1234567i64, -12345678, -99999999999, i64::MIN, -2147483649])),
